@@ -215,7 +215,10 @@ func Lookup(name string, exts []*Ext) (lib.Res, *Ext) {
 	for _, e := range exts {
 		byID[e.ID] = e
 	}
-	for _, e := range exts {
+	// A type may be registered more than once on the same parent; the newest
+	// registration sits in front and is the one Lookup reaches first.
+	for i := len(exts) - 1; i >= 0; i-- {
+		e := exts[i]
 		for _, nm := range e.Names() {
 			if nm == name {
 				return ChainOf(e, byID), e
